@@ -1368,6 +1368,7 @@ func parsePackageInfo(ps ParseState) frt.Tuple2[ParseState, RootStmt] {
 
 func parseRootOneStmt(pExpr func(ParseState) frt.Tuple2[ParseState, Expr], ps ParseState) frt.Tuple2[ParseState, RootStmt] {
 	psForErrMsg(ps)
+	verifTracePS("root", ps)
 	frt.IfOnly((SCLen(ps.scope) > 1), (func() {
 		psPanic(ps, "Scope is not property poped.")
 	}))
